@@ -24,6 +24,7 @@ from __future__ import absolute_import
 import collections
 
 import threading
+import traceback
 from typing import FrozenSet  # pylint: disable=unused-import
 import time
 import socket
@@ -196,10 +197,13 @@ class DULServiceProvider(threading.Thread):
                 except IndexError:
                     continue
                 self.state_machine.action(evt)
-        except Exception:
+        except Exception:  # last resort: the association is gone, tell the user
+            traceback.print_exc()
             self.to_service_user.put(pdu.AAbortPDU(source=0, reason_diag=0))
-            raise
         finally:
+            if self.dul_socket is not None:
+                self.dul_socket.close()
+                self.dul_socket = None
             self._is_killed.set()
 
     def _check_network(self):
